@@ -61,6 +61,28 @@
  *       when some entitled directly related endpoint exists -, then (del=1, kind u) the object is removed from the registry,
  *       endpoint <target> connects and the real ApiListener::ReplayLog runs for its connection.  r = the event was replayed to
  *       <target>, x = anything else queued anywhere.
+ *   L <conn> <client> <fromzone> <objzone> <kind> <target> <pre> <post> | s=<eps> k=<eps> p=<0|1> lp=<z|offset> r=<n> x=<n>
+ *       LOG POSITIONS across a reconnect: endpoint <target> reports the log position <pre> through the REAL handler of
+ *       `log::SetLogPosition` (JsonRpcConnection::MessageHandler on its connection; `-` nothing, else a sequence of reports: `b` 60 s
+ *       before the event, `e` the event's ts, `a` 1 s after it), the node relays an event exactly as in an R line (log = 1), <target> reports <post>, its
+ *       connection is removed, a new one attached and the real ApiListener::ReplayLog runs for it.  s / k / p as for R,
+ *       lp = <target>'s local_log_position when the replay starts (`z` zero, else its offset to the event's ts in seconds),
+ *       r = copies of the event the replay queued for <target>, x = anything else queued anywhere (log::SetLogPosition apart).
+ *   Q <a> <b> <objzone> <kind> <target> <conn a> <conn b> | sa=<eps> pa=<0|1> ra=<n> ab=<0|1> sb=<eps> pb=<0|1> rb=<n> x=<n>
+ *       TWO NODES of one zone and one event: node <a> relays a local event about the object (conn a = what it is connected to),
+ *       <target> - if it got the event - confirms it (log::SetLogPosition with the event's ts), reconnects and <a> replays its log
+ *       for it (ra copies); if <a> sent the event to <b>, the identity is switched to <b> (conn b), the message is handed to the
+ *       real MessageHandler of <a>'s connection (handler as for D lines: ab = accepted, re-relay with the origin), and the same
+ *       happens there (sb, pb, rb).  What <target> receives from the two together is what the property's "no endpoint processes
+ *       the same event twice" speaks about.
+ *   N <orig> <objzone> <kind> <matrix> <mode> | proc=<eps> disc=<n> pers=<eps> sched=<to.from,..> left=<n> x=<n>
+ *       a WHOLE PROPAGATION on the real code: <matrix> = one connectivity row per endpoint (joined by `/`); endpoint <orig> relays a
+ *       local event about the object; every copy found on a connection's queue becomes an in-flight message (recipient, sender,
+ *       originZone field); in-flight messages are delivered one by one (mode 0 oldest first, 1 newest first, else a seeded pick):
+ *       the identity is switched to the recipient, its row of the matrix installed, and the raw message handed to the REAL
+ *       MessageHandler of the sender's connection (handler as for D lines), until nothing is in flight.  proc = the endpoints that
+ *       processed the event, in order; disc = messages discarded by the handler's CanAccessObject guard; pers = endpoints that
+ *       logged it; sched = the deliveries made; left = messages still in flight when the step limit was hit.
  *
  * Modes: gen --seed S --tier quick|thorough [--work DIR]     enumeration + seeded sampling
  *        ops FILE [--work DIR]                               replay T/R lines (text after `|` ignored)
@@ -279,6 +301,7 @@ static std::string ListTok(std::vector<int> v)
 }
 
 static int evPerPoint = 2;
+static int logPerPoint = 4;
 static void GenCases(const Topo& t0, int self, Rng& rng, size_t cap, std::vector<std::string>& out, size_t& fullPairs)
 {
 	Topo t = t0;
@@ -421,6 +444,44 @@ static void GenCases(const Topo& t0, int self, Rng& rng, size_t cap, std::vector
 				out.push_back("P " + zt + " u 1 " + std::to_string(e));
 			}
 		}
+		/* log positions across a reconnect (L lines): every directly related endpoint (and one in four of the others) as the one
+		 * that reconnects x every object zone incl. none x {it was connected, it was not} x seeded connectivity of the others (each
+		 * related endpoint missing with probability 0.4, so that something entitled is unreachable and the event is logged in most
+		 * cases) x seeded origin (none / every shape MessageHandler produces for a connected sender) x positions reported before
+		 * {none, older} and after {none, older, the event's ts, newer} the event */
+		for (int e = 0; e < nep; e++) {
+			if (e == self) continue;
+			bool rel = std::find(related.begin(), related.end(), e) != related.end();
+			if (!rel && rng.below(4) != 0) continue;
+			for (int z = 0; z <= nz; z++) {
+				for (int k = 0; k < logPerPoint; k++) {
+					std::string conn(nep, '0');
+					for (int x = 0; x < nep; x++) {
+						if (x == self) continue;
+						bool r = std::find(related.begin(), related.end(), x) != related.end();
+						uint64_t d = rng.below(20);
+						conn[x] = d < (r ? 8u : 14u) ? '0' : d < 17 ? '1' : d < 19 ? '2' : 's';
+					}
+					conn[e] = (k % 2 == 0) ? (rng.below(8) ? '1' : '2') : '0';
+					std::string client = "n", fz = "-";
+					if (rng.below(10) < 4) {
+						std::vector<int> up;
+						for (int x = 0; x < nep; x++) if (x != self && conn[x] != '0') up.push_back(x);
+						if (!up.empty()) {
+							int cl = up[rng.below(up.size())];
+							client = std::to_string(cl);
+							if (t.zoneOf[cl] != lz) fz = std::to_string(t.zoneOf[cl]);
+							else if (rng.below(2)) fz = std::to_string((int)rng.below((uint64_t)nz));
+						}
+					}
+					std::string zt = z < nz ? std::to_string(z) : std::string("-");
+					std::string kind = z < nz ? (rng.below(2) ? "z" : "u") : (rng.below(2) ? "u" : "n");
+					static const char *pres[] = { "-", "b", "-", "bb" }, *posts[] = { "-", "b", "e", "a", "b", "ab", "eb", "be" };
+					out.push_back("L " + conn + " " + client + " " + fz + " " + zt + " " + kind + " " + std::to_string(e) + " "
+						+ pres[rng.below(4)] + " " + posts[rng.below(8)]);
+				}
+			}
+		}
 	}
 }
 
@@ -446,6 +507,68 @@ static void GenMasterPairs(const Topo& t, Rng& rng, std::vector<std::string>& ou
 }
 
 /* endpoint table for a forest: `counts[z]` endpoints per zone, indices (= name ranks) dealt by a seeded shuffle */
+/* the two members of every two-member zone and one event (Q lines): every object zone x every endpoint of a parent / child zone
+ * as the one that reconnects x {connected to both, to the first, to the second, to neither} x seeded rest, the two seeing each
+ * other (3 of 4 cases) or not */
+static void GenPairs(const Topo& t, Rng& rng, std::vector<std::string>& out)
+{
+	int nz = (int)t.parent.size(), nep = (int)t.zoneOf.size();
+	for (int a = 0; a < nep; a++)
+		for (int b = 0; b < nep; b++) {
+			if (a == b || t.zoneOf[a] != t.zoneOf[b]) continue;
+			int members = 0;
+			for (int e = 0; e < nep; e++) if (t.zoneOf[e] == t.zoneOf[a]) members++;
+			if (members != 2) continue;
+			int lz = t.zoneOf[a];
+			for (int x = 0; x < nep; x++) {
+				int zx = t.zoneOf[x];
+				if (x == a || x == b || !(t.parent[lz] == zx || t.parent[zx] == lz)) continue;
+				for (int z = 0; z < nz; z++)
+					for (int k = 0; k < 4; k++) {
+						std::string ca(nep, '0'), cb(nep, '0');
+						for (int e = 0; e < nep; e++) {
+							ca[e] = rng.below(3) ? '1' : '0';
+							cb[e] = rng.below(3) ? '1' : '0';
+						}
+						char ab = rng.below(4) ? '1' : '0';
+						ca[b] = ab; cb[a] = ab;
+						ca[x] = (k & 1) ? '0' : '1';
+						cb[x] = (k & 2) ? '0' : '1';
+						out.push_back("Q " + std::to_string(a) + " " + std::to_string(b) + " " + std::to_string(z) + " " + (rng.below(2) ? "z" : "u") + " "
+							+ std::to_string(x) + " " + ca + " " + cb);
+					}
+			}
+		}
+}
+
+/* whole propagations on the real code (N lines): every originator x every object zone x {everything connected, two seeded symmetric
+ * connectivity matrices} with the delivery order rotating over oldest-first / newest-first / seeded */
+static void GenNets(const Topo& t, Rng& rng, std::vector<std::string>& out)
+{
+	int nz = (int)t.parent.size(), nep = (int)t.zoneOf.size();
+	if (nep < 2) return;
+	int k = 0;
+	for (int pat = 0; pat < 3; pat++) {
+		std::vector<std::string> rows(nep, std::string(nep, '1'));
+		for (int a = 0; a < nep; a++) {
+			rows[a][a] = '0';
+			for (int b = a + 1; b < nep && pat > 0; b++) {
+				bool rel = t.zoneOf[a] == t.zoneOf[b] || t.parent[t.zoneOf[a]] == t.zoneOf[b] || t.parent[t.zoneOf[b]] == t.zoneOf[a];
+				char v = rel ? (rng.below(4) ? '1' : '0') : (rng.below(4) ? '0' : '1');
+				rows[a][b] = v; rows[b][a] = v;
+			}
+		}
+		std::string m;
+		for (auto& r : rows) m += (m.empty() ? "" : "/") + r;
+		for (int o = 0; o < nep; o++)
+			for (int z = 0; z < nz; z++) {
+				int mode = k % 3 == 2 ? 2 + (int)rng.below(50) : k % 3;
+				k++;
+				out.push_back("N " + std::to_string(o) + " " + std::to_string(z) + " " + (rng.below(2) ? "z" : "u") + " " + m + " " + std::to_string(mode));
+			}
+	}
+}
+
 static Topo MakeTopo(const std::vector<int>& forest, const std::vector<int>& counts, int nGlobal, Rng& rng)
 {
 	Topo t;
@@ -477,6 +600,7 @@ static void GenAll(uint64_t seed, bool thorough, std::vector<std::vector<std::st
 	Rng rng(seed * 0x9e3779b97f4a7c15ULL + 11);
 	size_t cap = thorough ? 20000 : 2500;
 	evPerPoint = thorough ? 6 : 2;
+	logPerPoint = thorough ? 12 : 4;
 	int maxZones = 5;
 	for (int n = 1; n <= maxZones; n++) {
 		for (auto& forest : Forests(n)) {
@@ -508,6 +632,8 @@ static void GenAll(uint64_t seed, bool thorough, std::vector<std::vector<std::st
 				}
 				for (int s : selves) GenCases(t, s, rng, cap, part, fullPairs);
 				GenMasterPairs(t, rng, part);
+				GenPairs(t, rng, part);
+				GenNets(t, rng, part);
 				parts.push_back(part);
 			}
 		}
@@ -1328,6 +1454,343 @@ static void RunReplay(const PCase& c)
 	printf("P %s %s %d %d | p=%d r=%d x=%d\n", c.objzone.c_str(), c.kind.c_str(), c.del, c.target, logAfter > logBefore ? 1 : 0, replayed, others);
 }
 
+/* ------------------------------------------------------------------------------------------- */
+/* L lines: log positions (SetLogPositionHandler + the skipped endpoints of RelayMessageOne) and the replay after a reconnect */
+
+struct LCase {
+	Case c;
+	int target = 0;
+	std::string pre = "-", post = "-";      /* sequences of reported positions */
+};
+
+static bool ParseLog(const std::vector<std::string>& w, LCase& c)
+{
+	if (w.size() != 9 || w[0] != "L") return false;
+	std::vector<std::string> r = { "R", w[1], w[2], w[3], w[4], w[5], "1" };
+	if (!ParseCase(r, c.c)) return false;
+	if (c.c.client == "a") return false;
+	int nep = (int)l_T.zoneOf.size();
+	if (w[6].empty() || w[6].size() > 3 || w[6].find_first_not_of("0123456789") != std::string::npos) return false;
+	c.target = atoi(w[6].c_str());
+	if (c.target >= nep || c.target == l_T.self) return false;
+	c.pre = w[7]; c.post = w[8];
+	auto ok = [](const std::string& s) { return s == "-" || (!s.empty() && s.size() <= 4 && s.find_first_not_of("bea") == std::string::npos); };
+	return ok(c.pre) && ok(c.post);
+}
+
+/* <target> tells the node how far it has read the node's log: the raw message goes through the real MessageHandler */
+static void ReportPosition(int target, char what, double ts);
+static void ReportPositions(int target, const std::string& seq, double ts)
+{
+	for (char ch : seq) ReportPosition(target, ch, ts);
+}
+
+static void ReportPosition(int target, char what, double ts)
+{
+	if (what == '-') return;
+	double pos = what == 'b' ? ts - 60 : what == 'e' ? ts : ts + 1;
+	Dictionary::Ptr raw = new Dictionary({ { "jsonrpc", "2.0" }, { "method", "log::SetLogPosition" },
+		{ "params", new Dictionary({ { "log_position", pos } }) } });
+	JsonRpcConnection *conn = l_New[target].get();
+	(conn->*get(MhTag()))(raw);
+}
+
+static void RunLog(const LCase& lc)
+{
+	const Case& c = lc.c;
+	int nz = (int)l_T.parent.size(), nep = (int)l_T.zoneOf.size();
+	l_Tick++;
+	l_Now += 100;
+	SetNow(l_Now);
+	SetConn(c.conn);
+	Sync();
+	auto conns = AllConns();
+	DrainAll(conns);
+	for (auto& ep : l_Eps) ep->SetLocalLogPosition(0);
+	ApiListener *l = l_Listener.get();
+	{
+		(l->*get(CloseTag()))();
+		std::error_code ec;
+		for (auto& e : fs::directory_iterator(l_Dir + "/api/log", ec)) fs::remove(e.path(), ec);
+		(l->*get(OpenTag()))();
+	}
+	ReportPositions(lc.target, lc.pre, l_Now);
+
+	size_t before = l->*get(LogCountTag());
+	MessageOrigin::Ptr origin;
+	if (c.client != "n") {
+		origin = new MessageOrigin();
+		if (c.client != "-") origin->FromClient = l_New[atoi(c.client.c_str())];
+		if (c.fromzone != "-") origin->FromZone = l_Zones[atoi(c.fromzone.c_str())];
+	}
+	ConfigObject::Ptr secobj;
+	if (c.kind == "z") secobj = l_Zones[atoi(c.objzone.c_str())];
+	else if (c.kind == "u") secobj = c.objzone == "-" ? l_Users[nz] : l_Users[atoi(c.objzone.c_str())];
+	Dictionary::Ptr params = new Dictionary({ { "n", (double)l_Tick } });
+	Dictionary::Ptr message = new Dictionary({ { "jsonrpc", "2.0" }, { "method", "event::VerifC11" }, { "params", params } });
+	l->RelayMessage(origin, secobj, message, true);
+	Sync();
+	size_t after = l->*get(LogCountTag());
+	auto isMine = [](const String& text) {
+		Dictionary::Ptr m;
+		try { m = JsonDecode(text); } catch (...) { }
+		return m && m->Get("method") == "event::VerifC11" && m->Get("params").IsObjectType<Dictionary>()
+			&& (double)Dictionary::Ptr(m->Get("params"))->Get("n") == (double)l_Tick;
+	};
+	std::vector<int> sent, skipped;
+	int others = 0;
+	{
+		auto queues = DrainAll(conns);
+		for (size_t i = 0; i < queues.size(); i++)
+			for (const String& text : queues[i]) {
+				if (isMine(text) && i % 2 == 0 && i / 2 < (size_t)nep) sent.push_back((int)(i / 2)); else others++;
+			}
+	}
+	for (int e = 0; e < nep; e++)
+		if (l_Eps[e]->GetLocalLogPosition() == l_Now) skipped.push_back(e);
+
+	ReportPositions(lc.target, lc.post, l_Now);
+
+	/* the connection drops, the endpoint connects again, the log is replayed for the new connection */
+	l_Now += 2;
+	SetNow(l_Now);
+	std::string off = c.conn, on = c.conn;
+	off[lc.target] = '0';
+	on[lc.target] = '1';
+	SetConn(off);
+	SetConn(on);
+	double lp = l_Eps[lc.target]->GetLocalLogPosition();
+	(l->*get(ReplayTag()))(l_New[lc.target]);
+	Sync();
+	int replayed = 0;
+	{
+		auto queues = DrainAll(conns);
+		for (size_t i = 0; i < queues.size(); i++)
+			for (const String& text : queues[i]) {
+				Dictionary::Ptr m;
+				try { m = JsonDecode(text); } catch (...) { }
+				if (m && m->Get("method") == "log::SetLogPosition") continue;
+				if (isMine(text) && i / 2 == (size_t)lc.target) replayed++; else others++;
+			}
+	}
+	l_Eps[lc.target]->SetSyncing(false);
+	std::string lpTok = lp == 0 ? std::string("z") : std::to_string((long)(lp - (l_Now - 2)));
+	printf("L %s %s %s %s %s %d %s %s | s=%s k=%s p=%d lp=%s r=%d x=%d\n", c.conn.c_str(), c.client.c_str(), c.fromzone.c_str(),
+		c.objzone.c_str(), c.kind.c_str(), lc.target, lc.pre.c_str(), lc.post.c_str(), ListTok(sent).c_str(), ListTok(skipped).c_str(),
+		after > before ? 1 : 0, lpTok.c_str(), replayed, others);
+}
+
+/* ------------------------------------------------------------------------------------------- */
+/* Q lines: the two members of a zone, one event, one endpoint that reconnects to both */
+
+struct QCase {
+	int a = 0, b = 0, target = 0;
+	std::string objzone, kind, connA, connB;
+};
+
+static bool ParsePair(const std::vector<std::string>& w, QCase& c)
+{
+	if (w.size() != 8 || w[0] != "Q") return false;
+	int nz = (int)l_T.parent.size(), nep = (int)l_T.zoneOf.size();
+	auto isIdx = [](const std::string& s, int n) { return !s.empty() && s.size() < 4 && s.find_first_not_of("0123456789") == std::string::npos && atoi(s.c_str()) < n; };
+	if (!isIdx(w[1], nep) || !isIdx(w[2], nep) || !isIdx(w[3], nz) || !isIdx(w[5], nep)) return false;
+	c.a = atoi(w[1].c_str()); c.b = atoi(w[2].c_str()); c.objzone = w[3]; c.kind = w[4]; c.target = atoi(w[5].c_str());
+	if (c.kind != "z" && c.kind != "u") return false;
+	if (c.a == c.b || c.target == c.a || c.target == c.b || l_T.zoneOf[c.a] != l_T.zoneOf[c.b]) return false;
+	c.connA = w[6]; c.connB = w[7];
+	if ((int)c.connA.size() != nep || (int)c.connB.size() != nep) return false;
+	for (char ch : c.connA + c.connB) if (ch != '0' && ch != '1' && ch != '2') return false;
+	return true;
+}
+
+struct QPhase { std::vector<int> sent; int persisted = 0, replayed = 0, accepted = 0, others = 0; };
+
+/* one node's part: relay (from == -1: a local event; else the message arrives from endpoint <from>), confirmation, reconnect, replay */
+static QPhase RunPairPhase(int node, const std::string& conn, int from, const QCase& c)
+{
+	QPhase ph;
+	int nep = (int)l_T.zoneOf.size();
+	SwitchIdentity(node);
+	l_Now += 10;
+	SetNow(l_Now);
+	SetConn(conn);
+	Sync();
+	auto conns = AllConns();
+	DrainAll(conns);
+	for (auto& ep : l_Eps) ep->SetLocalLogPosition(0);
+	ApiListener *l = l_Listener.get();
+	{
+		(l->*get(CloseTag()))();
+		std::error_code ec;
+		for (auto& e : fs::directory_iterator(l_Dir + "/api/log", ec)) fs::remove(e.path(), ec);
+		(l->*get(OpenTag()))();
+	}
+	size_t before = l->*get(LogCountTag());
+	int z = atoi(c.objzone.c_str());
+	l_HandlerAccepted = 0;
+	if (from < 0) {
+		ConfigObject::Ptr secobj;
+		if (c.kind == "z") secobj = l_Zones[z]; else secobj = l_Users[z];
+		Dictionary::Ptr params = new Dictionary({ { "n", (double)l_Tick } });
+		Dictionary::Ptr message = new Dictionary({ { "jsonrpc", "2.0" }, { "method", "event::VerifC11" }, { "params", params } });
+		l->RelayMessage(nullptr, secobj, message, true);
+	} else {
+		Dictionary::Ptr params = new Dictionary({ { "n", (double)l_Tick }, { "zone", (double)z }, { "kind", String(c.kind) } });
+		Dictionary::Ptr raw = new Dictionary({ { "jsonrpc", "2.0" }, { "method", "event::VerifC11" }, { "params", params } });
+		JsonRpcConnection *cn = l_New[from].get();
+		(cn->*get(MhTag()))(raw);
+	}
+	Sync();
+	ph.accepted = l_HandlerAccepted;
+	ph.persisted = (l->*get(LogCountTag())) > before ? 1 : 0;
+	auto isMine = [](const String& text) {
+		Dictionary::Ptr m;
+		try { m = JsonDecode(text); } catch (...) { }
+		return m && m->Get("method") == "event::VerifC11" && m->Get("params").IsObjectType<Dictionary>()
+			&& (double)Dictionary::Ptr(m->Get("params"))->Get("n") == (double)l_Tick;
+	};
+	{
+		auto queues = DrainAll(conns);
+		for (size_t i = 0; i < queues.size(); i++)
+			for (const String& text : queues[i]) {
+				if (isMine(text) && i % 2 == 0 && i / 2 < (size_t)nep) ph.sent.push_back((int)(i / 2)); else ph.others++;
+			}
+	}
+	/* an endpoint that received the event confirms it (its periodic log::SetLogPosition carries the ts of the last message) */
+	if (std::find(ph.sent.begin(), ph.sent.end(), c.target) != ph.sent.end()) ReportPosition(c.target, 'e', l_Now);
+	l_Now += 2;
+	SetNow(l_Now);
+	std::string off = conn, on = conn;
+	off[c.target] = '0';
+	on[c.target] = '1';
+	SetConn(off);
+	SetConn(on);
+	(l->*get(ReplayTag()))(l_New[c.target]);
+	Sync();
+	{
+		auto queues = DrainAll(conns);
+		for (size_t i = 0; i < queues.size(); i++)
+			for (const String& text : queues[i]) {
+				Dictionary::Ptr m;
+				try { m = JsonDecode(text); } catch (...) { }
+				if (m && m->Get("method") == "log::SetLogPosition") continue;
+				if (isMine(text) && i / 2 == (size_t)c.target) ph.replayed++; else ph.others++;
+			}
+	}
+	l_Eps[c.target]->SetSyncing(false);
+	return ph;
+}
+
+static void RunPair(const QCase& c)
+{
+	l_Tick++;
+	QPhase pa = RunPairPhase(c.a, c.connA, -1, c), pb;
+	if (std::find(pa.sent.begin(), pa.sent.end(), c.b) != pa.sent.end())
+		pb = RunPairPhase(c.b, c.connB, c.a, c);
+	printf("Q %d %d %s %s %d %s %s | sa=%s pa=%d ra=%d ab=%d sb=%s pb=%d rb=%d x=%d\n", c.a, c.b, c.objzone.c_str(), c.kind.c_str(), c.target,
+		c.connA.c_str(), c.connB.c_str(), ListTok(pa.sent).c_str(), pa.persisted, pa.replayed, pb.accepted, ListTok(pb.sent).c_str(),
+		pb.persisted, pb.replayed, pa.others + pb.others);
+}
+
+/* ------------------------------------------------------------------------------------------- */
+/* N lines: a whole propagation, node by node, on the real code */
+
+struct NCase {
+	int orig = 0, mode = 0;
+	std::string objzone, kind;
+	std::vector<std::string> rows;
+};
+
+static bool ParseNet(const std::vector<std::string>& w, NCase& c)
+{
+	if (w.size() != 6 || w[0] != "N") return false;
+	int nz = (int)l_T.parent.size(), nep = (int)l_T.zoneOf.size();
+	auto isIdx = [](const std::string& s, int n) { return !s.empty() && s.size() < 4 && s.find_first_not_of("0123456789") == std::string::npos && atoi(s.c_str()) < n; };
+	if (!isIdx(w[1], nep) || !isIdx(w[2], nz) || (w[3] != "z" && w[3] != "u") || !isIdx(w[5], 1000)) return false;
+	c.orig = atoi(w[1].c_str()); c.objzone = w[2]; c.kind = w[3]; c.mode = atoi(w[5].c_str());
+	std::string row;
+	std::istringstream is(w[4]);
+	while (std::getline(is, row, '/')) c.rows.push_back(row);
+	if ((int)c.rows.size() != nep) return false;
+	for (auto& r : c.rows) {
+		if ((int)r.size() != nep) return false;
+		for (char ch : r) if (ch != '0' && ch != '1') return false;
+	}
+	return true;
+}
+
+struct NMsg { int to, from; std::string oz; };
+
+static void RunNet(const NCase& c)
+{
+	int nep = (int)l_T.zoneOf.size();
+	int z = atoi(c.objzone.c_str());
+	l_Tick++;
+	std::vector<NMsg> inflight;
+	std::vector<int> processed, persisted;
+	int discarded = 0, others = 0;
+	std::string sched;
+	auto isMine = [](const Dictionary::Ptr& m) {
+		return m && m->Get("method") == "event::VerifC11" && m->Get("params").IsObjectType<Dictionary>()
+			&& (double)Dictionary::Ptr(m->Get("params"))->Get("n") == (double)l_Tick;
+	};
+	/* one node handles the event: from < 0 = it originates it; returns whether it processed it */
+	auto node = [&](int self, int from, const std::string& ozField) -> bool {
+		SwitchIdentity(self);
+		l_Now += 1;
+		SetNow(l_Now);
+		SetConn(c.rows[self]);
+		Sync();
+		auto conns = AllConns();
+		DrainAll(conns);
+		ApiListener *l = l_Listener.get();
+		size_t before = l->*get(LogCountTag());
+		l_HandlerAccepted = 0;
+		if (from < 0) {
+			ConfigObject::Ptr secobj;
+			if (c.kind == "z") secobj = l_Zones[z]; else secobj = l_Users[z];
+			Dictionary::Ptr params = new Dictionary({ { "n", (double)l_Tick } });
+			Dictionary::Ptr message = new Dictionary({ { "jsonrpc", "2.0" }, { "method", "event::VerifC11" }, { "params", params } });
+			l->RelayMessage(nullptr, secobj, message, true);
+		} else {
+			Dictionary::Ptr params = new Dictionary({ { "n", (double)l_Tick }, { "zone", (double)z }, { "kind", String(c.kind) } });
+			Dictionary::Ptr raw = new Dictionary({ { "jsonrpc", "2.0" }, { "method", "event::VerifC11" }, { "params", params } });
+			if (ozField != "-") raw->Set("originZone", String(ZoneName(atoi(ozField.c_str()))));
+			JsonRpcConnection *cn = l_New[from].get();
+			(cn->*get(MhTag()))(raw);
+		}
+		Sync();
+		bool accepted = from < 0 || l_HandlerAccepted > 0;
+		if ((l->*get(LogCountTag())) > before) persisted.push_back(self);
+		auto queues = DrainAll(conns);
+		for (size_t i = 0; i < queues.size(); i++)
+			for (const String& text : queues[i]) {
+				Dictionary::Ptr m;
+				try { m = JsonDecode(text); } catch (...) { }
+				if (isMine(m) && i % 2 == 0 && i / 2 < (size_t)nep) inflight.push_back({ (int)(i / 2), self, ZoneTok(m->Get("originZone")) });
+				else others++;
+			}
+		return accepted;
+	};
+	node(c.orig, -1, "-");
+	processed.push_back(c.orig);
+	int limit = 4 * nep + 8;
+	for (int step = 0; step < limit && !inflight.empty(); step++) {
+		size_t idx = c.mode == 0 ? 0 : c.mode == 1 ? inflight.size() - 1 : (size_t)((l_Tick * 7 + step * 13 + c.mode) % (long)inflight.size());
+		NMsg m = inflight[idx];
+		inflight.erase(inflight.begin() + idx);
+		sched += (sched.empty() ? "" : ",") + std::to_string(m.to) + "." + std::to_string(m.from);
+		if (node(m.to, m.from, m.oz)) processed.push_back(m.to); else discarded++;
+	}
+	std::sort(persisted.begin(), persisted.end());
+	std::string proc;
+	for (int e : processed) proc += (proc.empty() ? "" : ",") + std::to_string(e);
+	std::string rows;
+	for (auto& r : c.rows) rows += (rows.empty() ? "" : "/") + r;
+	printf("N %d %s %s %s %d | proc=%s disc=%d pers=%s sched=%s left=%d x=%d\n", c.orig, c.objzone.c_str(), c.kind.c_str(), rows.c_str(), c.mode,
+		proc.c_str(), discarded, ListTok(persisted).c_str(), sched.empty() ? "-" : sched.c_str(), (int)inflight.size(), others);
+}
+
 static int NodeMain(const std::string& file, const std::string& work, const std::string& id)
 {
 	std::ifstream in(file);
@@ -1382,6 +1845,20 @@ static int NodeMain(const std::string& file, const std::string& work, const std:
 			PCase c;
 			if (!built || !ParseReplay(w, c)) Die("bad P line: " + line);
 			RunReplay(c);
+		} else if (w[0] == "L") {
+			LCase c;
+			if (!built || !ParseLog(w, c)) Die("bad L line: " + line);
+			RunLog(c);
+		} else if (w[0] == "Q") {
+			QCase c;
+			if (!built || !ParsePair(w, c)) Die("bad Q line: " + line);
+			RunPair(c);
+			SwitchIdentity(lineSelf);
+		} else if (w[0] == "N") {
+			NCase c;
+			if (!built || !ParseNet(w, c)) Die("bad N line: " + line);
+			RunNet(c);
+			SwitchIdentity(lineSelf);
 		} else {
 			Die("bad line: " + line);
 		}
